@@ -59,3 +59,11 @@ Theorem C05_concurrent_granted_within_reset_detached :
 Proof. exact ConcExtras.Extended.granted_within_x. Qed.
 Print Assumptions C05_concurrent_granted_within_reset_detached.
 
+
+(** the usual loop body [let n = it.available(); unsafe { it.advance(n) }] (the history lines [avail K] / [adv K =n], where the real iterator
+    advances by what the crate itself answered): the answer is the true availability, advancing by it respects the contract, and the two
+    steps together refine the Spec *)
+Theorem C05_available_then_advance :
+  forall (m : Seq.mstate) (a : Pipe.pipe) (k : Types.stage) (n : nat), Rel.Rel m a -> fst (snd (Seq.step m (Types.Avail k))) = Types.ONum n -> n = Pipe.a_avail k a /\ Pipe.ok_op (fst (Pipe.sstep a (Types.Avail k))) (Types.Advance k n) = true /\ Refine.refines (Seq.step (fst (Seq.step m (Types.Avail k))) (Types.Advance k n)) (Pipe.sstep (fst (Pipe.sstep a (Types.Avail k))) (Types.Advance k n)).
+Proof. exact SpecFacts.avail_then_advance. Qed.
+Print Assumptions C05_available_then_advance.
